@@ -5,8 +5,8 @@ import (
 	"strconv"
 	"strings"
 
-	si "verif/harness/internal/sceninterp"
 	"verif/harness/internal/scengen"
+	si "verif/harness/internal/sceninterp"
 
 	"pgregory.net/rapid"
 )
@@ -33,8 +33,9 @@ func (c Case) shots() int {
 	return c.Cycles * ring
 }
 
-func intp(i int) *int       { return &i }
-func i64p(i int64) *int64   { return &i }
+func intp(i int) *int     { return &i }
+func i64p(i int64) *int64 { return &i }
+
 // chance is true with probability pct/100. rapid's integer generators favour small
 // values heavily, so the number is assembled from fair bits; all-false (what the
 // shrinker aims at) means "no".
@@ -744,11 +745,12 @@ func genProgramPlanted(t *rapid.T, concurrent bool) (si.Program, string) {
 	g.posts()
 	g.pres()
 	g.templates()
-	if chance(t, 35, "plantObject") {
-		return g.p, g.plantObjectChain()
+	if !concurrent && chance(t, 35, "plantObject") {
+		planted := g.plantObjectChain()
+		return g.p, planted
 	}
-	// drop definitions no scenario uses? keep them: unused definitions are legal and must not matter
-	return g.p
+	// definitions no scenario uses stay: they are legal and must not matter
+	return g.p, ""
 }
 
 // planRun simulates the fault-free run to know how many requests reach the target
